@@ -252,8 +252,6 @@ class Sched(object):
             try:
                 if self.aborting:
                     return
-                if self.tracing:
-                    sys.settrace(_global_tracer)
                 try:
                     fn()
                 except Abort:
@@ -263,7 +261,6 @@ class Sched(object):
                 except BaseException as e:
                     a.exc = e
             finally:
-                sys.settrace(None)
                 self._finish(a)
 
         t = threading.Thread(target=boot, name='vf-%s-%d' % (name, a.id),
@@ -389,14 +386,14 @@ class CDeque(_deque):
 
     def append(self, x):
         S = cur()
-        if not S.aborting:
+        if not S.aborting and not (S.tracing and S.window):
             S.point('queue.append')
         _deque.append(self, x)
         S.effect()
 
     def popleft(self):
         S = cur()
-        if not S.aborting:
+        if not S.aborting and not (S.tracing and S.window):
             S.point('queue.popleft')
         x = _deque.popleft(self)
         S.effect()
@@ -419,20 +416,33 @@ class CDeque(_deque):
 
 
 # ---------------------------------------------------------------------------
-# Opcode-level scheduling points in connection.py
+# Bytecode-level scheduling points in connection.py (sys.monitoring)
+#
+# Every instruction of minecraft/networking/connection.py that loads, stores
+# or deletes a *shared* attribute is a scheduling point while an execution's
+# window is open.  INSTRUCTION events are armed per code object; the callback
+# returns DISABLE for every other offset, so the steady-state cost is one
+# Python call per shared access and nothing elsewhere.
 
 _OFFS = {}
-_TRACE_FILE = [None]
 _SHARED = [frozenset()]
+_TOOL = 3
 
 
 def shared_names(source):
-    """Attribute names assigned anywhere in the module (self.X = ...,
-    self.connection.X = ..., ...options.X = ...): the shared-state set is
-    computed from the AST of the tree under test, so a new field is traced."""
+    """Attribute names stored or deleted anywhere in the module outside an
+    __init__ method (self.X = ..., self.connection.X = ..., ...options.X =
+    ...).  Computed from the AST of the tree under test, so a field that a
+    change starts to mutate becomes a scheduling point by itself.  Names only
+    ever assigned inside __init__ are set before the object is shared and
+    are left out (reads of self.connection / self._write_lock would otherwise
+    dominate the point count)."""
     import ast
     names = set()
-    for node in ast.walk(ast.parse(source)):
+
+    def visit(node, in_init):
+        if isinstance(node, (ast.FunctionDef, ast.AsyncFunctionDef)):
+            in_init = node.name == '__init__'
         targets = []
         if isinstance(node, ast.Assign):
             targets = node.targets
@@ -440,21 +450,57 @@ def shared_names(source):
             targets = [node.target]
         elif isinstance(node, ast.Delete):
             targets = node.targets
-        for t in targets:
-            for sub in ast.walk(t):
-                if isinstance(sub, ast.Attribute) and \
-                        isinstance(sub.ctx, (ast.Store, ast.Del)):
-                    names.add(sub.attr)
+        if not in_init:
+            for t in targets:
+                for sub in ast.walk(t):
+                    if isinstance(sub, ast.Attribute) and \
+                            isinstance(sub.ctx, (ast.Store, ast.Del)):
+                        # only state reachable from self (self.X,
+                        # self.connection.options.X, ...): attributes of
+                        # freshly built local objects (packets, exceptions)
+                        # are not shared between threads
+                        root = sub.value
+                        while isinstance(root, ast.Attribute):
+                            root = root.value
+                        if isinstance(root, ast.Name) and root.id == 'self':
+                            names.add(sub.attr)
+        for child in ast.iter_child_nodes(node):
+            visit(child, in_init)
+    visit(ast.parse(source), False)
     return frozenset(names)
 
 
-def configure_tracing(conn_module):
-    path = conn_module.__file__
-    _TRACE_FILE[0] = path
-    with open(path) as f:
-        _SHARED[0] = shared_names(f.read()) - {'__class__'}
-    _OFFS.clear()
-    return _SHARED[0]
+def _code_objects(module):
+    """All code objects defined in the module (methods, lambdas, closures)."""
+    import types
+    seen, out, stack = set(), [], []
+
+    def add_obj(o):
+        f = getattr(o, '__func__', o)
+        if isinstance(o, property):
+            for g in (o.fget, o.fset, o.fdel):
+                if g is not None:
+                    add_obj(g)
+            return
+        c = getattr(f, '__code__', None)
+        if isinstance(c, types.CodeType):
+            stack.append(c)
+    for o in vars(module).values():
+        if isinstance(o, type) and o.__module__ == module.__name__:
+            for m in vars(o).values():
+                add_obj(m)
+        elif getattr(o, '__module__', None) == module.__name__:
+            add_obj(o)
+    while stack:
+        c = stack.pop()
+        if c in seen or c.co_filename != module.__file__:
+            continue
+        seen.add(c)
+        out.append(c)
+        for k in c.co_consts:
+            if isinstance(k, types.CodeType):
+                stack.append(k)
+    return out
 
 
 def _offsets(code):
@@ -462,37 +508,46 @@ def _offsets(code):
     for ins in dis.get_instructions(code):
         if ins.opname in ('LOAD_ATTR', 'STORE_ATTR', 'DELETE_ATTR',
                           'LOAD_METHOD') and ins.argval in _SHARED[0]:
-            offs[ins.offset] = (ins.argval, ins.opname != 'LOAD_ATTR'
-                                and ins.opname != 'LOAD_METHOD')
-    return offs or False
+            offs[ins.offset] = (ins.argval, ins.opname in ('STORE_ATTR',
+                                                           'DELETE_ATTR'))
+    return offs
 
 
-def _global_tracer(frame, event, arg):
-    if event != 'call':
+def _on_instruction(code, offset):
+    hit = _OFFS.get(code, {}).get(offset)
+    if hit is None:
+        return sys.monitoring.DISABLE
+    S = CUR
+    if S is None or not S.tracing or not S.window or S.aborting:
         return None
-    code = frame.f_code
-    offs = _OFFS.get(code)
-    if offs is None:
-        offs = _offsets(code) if code.co_filename == _TRACE_FILE[0] else False
-        _OFFS[code] = offs
-    if not offs:
+    me = S.by_ident.get(threading.get_ident())
+    if me is None or me is not S.current:
         return None
-    frame.f_trace_opcodes = True
-    frame.f_trace_lines = False
-    return _local_tracer
+    name, store = hit
+    S.point(('w:' if store else 'r:') + name)
+    if store:
+        me.dirty = True
+    return None
 
 
-def _local_tracer(frame, event, arg):
-    if event == 'opcode':
-        hit = _OFFS[frame.f_code].get(frame.f_lasti)
-        if hit is not None:
-            S = CUR
-            if S is not None and not S.aborting:
-                name, store = hit
-                S.point(('w:' if store else 'r:') + name)
-                if store:
-                    S.me().dirty = True
-    return _local_tracer
+def configure_tracing(conn_module):
+    with open(conn_module.__file__) as f:
+        _SHARED[0] = shared_names(f.read())
+    mon = sys.monitoring
+    try:
+        mon.use_tool_id(_TOOL, 'vf-pysched')
+    except ValueError:
+        pass
+    mon.register_callback(_TOOL, mon.events.INSTRUCTION, _on_instruction)
+    _OFFS.clear()
+    n = 0
+    for code in _code_objects(conn_module):
+        offs = _offsets(code)
+        if offs:
+            _OFFS[code] = offs
+            mon.set_local_events(_TOOL, code, mon.events.INSTRUCTION)
+            n += len(offs)
+    return _SHARED[0], n
 
 
 # ---------------------------------------------------------------------------
@@ -552,14 +607,10 @@ def run_execution(body, prefix=(), tracing=False, horizon=20000, expect=None):
     x = Execution()
     x.result = x.failure = None
     try:
-        if tracing:
-            sys.settrace(_global_tracer)
         try:
             x.result = body(S)
         except Failure as f:
             x.failure = (f.kind, f.detail)
-        finally:
-            sys.settrace(None)
     finally:
         try:
             S.finish()
